@@ -196,6 +196,25 @@ def handle (line : String) : String :=
                 (match p.1 with | .fin q => s!"{q.num}/{q.den}" | .inf => "inf") ++ "@" ++ bitsOfFloat p.2))))
           | .error e => "err " ++ errStr e
       | _, _, _ => "bad-input"
+  | "denseongen" :: scale :: f :: batches =>
+      -- the dense-time online operation classes as translated from the source (GeneratedDenseOn.lean) under DnOn.lean
+      let parseBatch (b : String) : Option (List (String × Dense.DSig Float)) :=
+        if b.trimAscii.toString == "-" then some [] else
+        ((b.splitOn "&").filter (fun x => x.trimAscii.toString ≠ "")).mapM parseDSig
+      match parseRat scale, parseFormula f, (batches.filter (fun b => b.trimAscii.toString ≠ "")).mapM parseBatch with
+      | some sc, some φ, some bs =>
+          let cfg : Dense.DCfg := { scale := sc }
+          let inps : List (String → Dense.Alg.ASig Float) := bs.map (fun b => fun x =>
+            match b.lookup x with
+            | some s => Dense.Alg.ofDSig s
+            | none => [])
+          match Py.DnOn.runOnG 100000 cfg φ inps with
+          | .ok outs =>
+              if outs.any (fun l => l.any (fun p => p.2.isNaN)) then "undef" else
+              "ok " ++ " ; ".intercalate (outs.map (fun l => if l.isEmpty then "-" else " ".intercalate (l.map (fun p =>
+                (match p.1 with | .fin q => s!"{q.num}/{q.den}" | .inf => "inf") ++ "@" ++ bitsOfFloat p.2))))
+          | .error e => "err " ++ errStr e
+      | _, _, _ => "bad-input"
   | "parse" :: unit :: consts :: hex :: _ =>
       -- front end: text is hex-encoded UTF-8; consts: `K=2.0,J=3`
       let bytes : Option (List UInt8) :=
